@@ -16,6 +16,11 @@ package main
 //
 // Functions of this layer are flagged `big` and placed in <File>Big modules (third placement
 // pass in emit.go), so that the text of every module that existed before stays byte-identical.
+//
+// *big.Float (bigfloat.go holds what is specific to it) is the VALUE Go.BigFloat of
+// lean/D128/Go/BigFloat.lean: precision, mode, form, sign, magnitude. Its storing methods read the
+// receiver (its precision and mode say how the result is rounded): bigMethod.recv. Functions that
+// mention it are flagged `bigFloat` as well and placed in <File>BigFloat modules (fourth pass).
 
 import (
 	"fmt"
@@ -29,7 +34,7 @@ import (
 
 const bigPath = "math/big"
 
-// bigNamed returns "Int", "Rat" or "Word" for (pointers to) these types of math/big.
+// bigNamed returns "Int", "Rat", "Float" or "Word" for (pointers to) these types of math/big.
 func bigNamed(t types.Type) (string, bool) {
 	if t == nil {
 		return "", false
@@ -42,13 +47,13 @@ func bigNamed(t types.Type) (string, bool) {
 		return "", false
 	}
 	switch n.Obj().Name() {
-	case "Int", "Rat", "Word":
+	case "Int", "Rat", "Word", "Float":
 		return n.Obj().Name(), true
 	}
 	return "", false
 }
 
-// isBigPtr: *big.Int or *big.Rat (the types modelled as values).
+// isBigPtr: *big.Int, *big.Rat or *big.Float (the types modelled as values).
 func isBigPtr(t types.Type) bool {
 	p, ok := t.(*types.Pointer)
 	if !ok {
@@ -84,6 +89,9 @@ func bigLeanType(t types.Type) (string, bool) {
 		if n, ok := bigNamed(t); ok && n == "Word" {
 			return "UInt64", true // big.Word is uint; uint is 64 bits wide (DESIGN §3)
 		}
+		if s, ok := bigEnumLeanType(t); ok {
+			return s, true
+		}
 	}
 	return "", false
 }
@@ -104,6 +112,12 @@ type bigMethod struct {
 	// ref: the result shares memory with the receiver (Num, Denom, Bits). It is copied as a
 	// value; checkBigFlow refuses functions that could observe the sharing.
 	ref bool
+	// recv (big.Float): a storing method whose result depends on the receiver (its precision and
+	// rounding mode). The Lean function takes the previous value of the receiver as its first
+	// argument and returns the new one.
+	recv bool
+	// fresh: the (first) result is a newly allocated object (x.Rat(nil)).
+	fresh bool
 }
 
 // bigMethods: the key is <receiver type>.<method>, the Lean name is Go.Big<receiver>.<method>.
@@ -136,6 +150,25 @@ var bigMethods = map[string]bigMethod{
 	"Rat.SetInt":    {nilArg: -1, writes: true},
 	"Rat.SetUint64": {nilArg: -1, writes: true},
 	"Rat.Neg":       {nilArg: -1, writes: true},
+	// big.Float (Go/BigFloat.lean)
+	"Float.Prec":      {nilArg: -1},
+	"Float.Mode":      {nilArg: -1},
+	"Float.MinPrec":   {nilArg: -1},
+	"Float.IsInf":     {nilArg: -1},
+	"Float.Sign":      {nilArg: -1},
+	"Float.Signbit":   {nilArg: -1},
+	"Float.Rat":       {nilArg: 0, monadic: true, fresh: true}, // only x.Rat(nil); (value, Accuracy)
+	"Float.SetPrec":   {nilArg: -1, writes: true, recv: true},
+	"Float.SetMode":   {nilArg: -1, writes: true, recv: true},
+	"Float.SetInf":    {nilArg: -1, writes: true, recv: true},
+	"Float.SetUint64": {nilArg: -1, writes: true, recv: true},
+	"Float.SetInt64":  {nilArg: -1, writes: true, recv: true},
+	"Float.SetInt":    {nilArg: -1, writes: true, recv: true},
+	"Float.Set":       {nilArg: -1, writes: true, recv: true},
+	"Float.Neg":       {nilArg: -1, writes: true, recv: true},
+	"Float.Abs":       {nilArg: -1, writes: true, recv: true},
+	"Float.Mul":       {nilArg: -1, writes: true, recv: true, monadic: true}, // ErrNaN for 0 × Inf
+	"Float.Quo":       {nilArg: -1, writes: true, recv: true, monadic: true}, // ErrNaN for 0/0, Inf/Inf
 }
 
 func unparen(x ast.Expr) ast.Expr {
@@ -221,6 +254,9 @@ func bigDenotes(x ast.Expr) (v *types.Var, ok bool) {
 		if m, known := bigMethods[key]; known && m.writes {
 			return bigDenotes(sel.X)
 		}
+		if m, known := bigMethods[key]; known && m.fresh {
+			return nil, true
+		}
 	}
 	return nil, false
 }
@@ -244,11 +280,14 @@ type bigInfo struct {
 	nilDefault map[*types.Var]*ast.IfStmt // parameters with the idiom `if p == nil { p = new(T) }`
 	stored     []string                   // parameters the function stores into (documented: Int, Rat)
 	loops      [][2]token.Pos
+	// *big.Float parameters compared with nil (bigfloat.go): such a parameter is an Option in Lean
+	nilTests   map[*types.Var][]*ast.BinaryExpr
+	nilTestSeq []*types.Var
 }
 
 func (F *fn) bigI() *bigInfo {
 	if F.bigInf == nil {
-		F.bigInf = &bigInfo{nilDefault: map[*types.Var]*ast.IfStmt{}}
+		F.bigInf = &bigInfo{nilDefault: map[*types.Var]*ast.IfStmt{}, nilTests: map[*types.Var][]*ast.BinaryExpr{}}
 	}
 	return F.bigInf
 }
@@ -263,7 +302,9 @@ func nilDefaultIdiom(s *ast.IfStmt) (*types.Var, bool) {
 		return nil, false
 	}
 	v := bigVarOf(c.X)
-	if v == nil {
+	if v == nil || isBigFloatPtr(v.Type()) {
+		// *big.Float: nil is not new(big.Float) elsewhere in the same function (Decimal.Float), so
+		// its nil tests are all handled by checkNilFlow (bigfloat.go), as an Option
 		return nil, false
 	}
 	a, ok := s.Body.List[0].(*ast.AssignStmt)
@@ -402,6 +443,9 @@ func (t *tr) analyseBig(F *fn, n ast.Node, unsupported func(ast.Node, string)) (
 						F.big = true
 						return true, false
 					}
+					if _, isEnum := bigEnumLeanType(tn.Type()); isEnum {
+						return true, false // big.RoundingMode, big.Accuracy in type position
+					}
 				}
 			}
 		}
@@ -421,6 +465,16 @@ func (t *tr) analyseBig(F *fn, n ast.Node, unsupported func(ast.Node, string)) (
 		}
 	case *ast.BinaryExpr:
 		if isBigPtr(t.info.Types[n.X].Type) || isBigPtr(t.info.Types[n.Y].Type) {
+			if v, _, ok := floatNilTest(n); ok {
+				// admitted where checkNilFlow (bigfloat.go) can tell what the test means
+				F.big = true
+				B := F.bigI()
+				if B.nilTests[v] == nil {
+					B.nilTestSeq = append(B.nilTestSeq, v)
+				}
+				B.nilTests[v] = append(B.nilTests[v], n)
+				return true, false
+			}
 			unsupported(n, "comparison of math/big pointers")
 		}
 	case *ast.SliceExpr:
@@ -462,6 +516,12 @@ func (t *tr) analyseBig(F *fn, n ast.Node, unsupported func(ast.Node, string)) (
 			}
 			F.big = true
 			id, isId := unparen(l).(*ast.Ident)
+			if isId && k == 0 && len(n.Rhs) == 1 && len(n.Lhs) == 2 && (n.Tok == token.ASSIGN || n.Tok == token.DEFINE) {
+				// r, acc := x.Rat(nil): a fresh *big.Rat
+				if _, _, key, isM := bigMethodCall(n.Rhs[0]); isM && bigMethods[key].fresh {
+					continue
+				}
+			}
 			if !isId || len(n.Lhs) != len(n.Rhs) || (n.Tok != token.ASSIGN && n.Tok != token.DEFINE) {
 				unsupported(n, "assignment of math/big pointers other than `x = e` / `x := e`")
 				continue
@@ -482,6 +542,9 @@ func (t *tr) analyseBig(F *fn, n ast.Node, unsupported func(ast.Node, string)) (
 			t.bigAssign(F, n, v, n.Rhs[k], unsupported)
 		}
 	case *ast.CallExpr:
+		if tv, ok := t.info.Types[n.Fun]; ok && tv.IsType() {
+			return false, true // a conversion (big.RoundingMode(m), …): general analysis
+		}
 		if call, kind, ok := bigAlloc(n); ok {
 			F.big = true
 			if kind == "NewInt" {
@@ -774,6 +837,8 @@ func (e *em) bigCall(x *ast.CallExpr) (string, bool) {
 			return "(0 : Go.BigInt)", true // new(big.Int): the value 0
 		case "newRat":
 			return "(0 : Go.BigRat)", true // new(big.Rat): the value 0
+		case "newFloat":
+			return "Go.BigFloat.new", true // new(big.Float): +0 with precision 0, ToNearestEven
 		}
 		// big.NewInt(k): the value k
 		if tv := T.info.Types[call.Args[0]]; tv.Value != nil {
@@ -800,7 +865,11 @@ func (e *em) bigCall(x *ast.CallExpr) (string, bool) {
 			e.fail(x, "receiver of %s", key)
 		}
 		target = v
-		if _, isCall := unparen(sel.X).(*ast.CallExpr); isCall {
+		if m.recv {
+			// big.Float: the result depends on the receiver (precision, mode). Evaluating the
+			// receiver expression runs a chain's earlier stores and yields the current value.
+			args = append(args, paren(e.expr(sel.X)))
+		} else if _, isCall := unparen(sel.X).(*ast.CallExpr); isCall {
 			_ = e.expr(sel.X)
 		}
 	} else {
